@@ -648,6 +648,11 @@ HYGIENE_TEMPLATES = [
       "main.pn": 'import "greeter.pn";\n\nfn main() -> i32\n{\n\tgreet();\n\treturn: 7\n}\n',
       "util.pn": "pub fn write(x: i32) -> i32\n{\n\treturn: x + 1\n}\n"},
      ["main.pn", "greeter.pn", "util.pn"], ["main.pn", "greeter.pn"]),
+    ("private_type_captured_through_signature",
+     "REJECT",      # no well-typed single-file program corresponds to it: the call passes another type than the function takes
+     {"a.pn": "word64 Pair\n{\n\ta: i32,\n\tb: i32,\n}\n\npub fn pair_sum(p: Pair) -> i32\n{\n\treturn: p.a + p.b\n}\n",
+      "main.pn": 'import "a.pn";\n\nstruct Pair\n{\n\tx: i64,\n\ty: i64,\n\tz: i64,\n}\n\nfn main() -> i32\n{\n\tvar p = Pair { x: 1, y: 2, z: 3 };\n\tvar s = pair_sum(p);\n\treturn: s\n}\n'},
+     ["main.pn", "a.pn"], None),
 ]
 
 
@@ -661,6 +666,22 @@ def run_template(args):
     wd_root = os.path.join(work_root(), "C12", "t%d" % k)
     fresh_dir(wd_root)
     stats = {}
+    if single == "REJECT":
+        # the program is ill-typed once the two private types are told apart: it has to be rejected
+        res = {"k": k, "name": name, "violations": [], "stats": stats, "reference": "rejected"}
+        on_disk = {n: t for n, t in files.items() if n in names}
+        case = Case(on_disk, sample_orders(names, rng, None), [rng.getrandbits(64)], None, {}, "template:" + name)
+        wd = os.path.join(wd_root, "c")
+        fresh_dir(wd)
+        write_files(wd, on_disk)
+        for order in case.orders:
+            p = parse_run(penne_run(wd, order, case.entropies[0]))
+            stats["runs"] = stats.get("runs", 0) + 1
+            if p["verdict"] not in ("rejected",):
+                res["violations"].append({"class": "ill_typed_program_accepted", "detail": "order=%s: %s" % (order, p["verdict"]), "kind": "case", "case": case.to_json()})
+                break
+        shutil.rmtree(wd_root, ignore_errors=True)
+        return res
     ref_wd = os.path.join(wd_root, "ref")
     fresh_dir(ref_wd)
     if single is not None:
